@@ -532,7 +532,41 @@ class Calls:
         if self._summ is None:
             self._compute_summaries()
         assert self._summ is not None
-        return self._summ[id(func.node)]
+        s = self._summ.get(id(func.node))
+        if s is None:
+            s = self._summarise_one(func)
+            self._summ[id(func.node)] = s
+        return s
+
+    def _summarise_one(self, f: FuncInfo) -> 'Summary':
+        """Summary of a function that is not part of the program proper (an analysis view with helpers inlined)."""
+        assert self._summ is not None
+        s = Summary(f)
+        for n in body_walk(f):
+            if isinstance(n, (ast.Await, ast.Yield, ast.YieldFrom, ast.AsyncFor, ast.AsyncWith)):
+                s.own_ip = True
+                s.ip_reasons.append(f'{type(n).__name__.lower()}@{getattr(n, "lineno", 0)}')
+            if isinstance(n, (ast.Assign, ast.AugAssign, ast.AnnAssign, ast.Delete)):
+                tg = n.targets if isinstance(n, (ast.Assign, ast.Delete)) else [n.target]
+                for x in tg:
+                    for y in ast.walk(x):
+                        if isinstance(y, ast.Attribute) and isinstance(y.ctx, (ast.Store, ast.Del)):
+                            s.writes.add(y.attr)
+        for call, t in self.func_calls(f):
+            if t.uncontrolled:
+                s.own_ip = True
+                s.ip_reasons.append(f'U:{t.ukind}:{t.name}@{call.lineno}')
+                s.usites.append((call, t))
+            if t.unknown and not t.funcs and self.state_ctor_label(f, call) is None and t.ukind not in ('table-callable', 'local-callable'):
+                s.own_ip = True
+            for g in t.funcs:
+                if g not in s.callees:
+                    s.callees.append(g)
+                if not g.is_async:
+                    gs = self.summary(g)
+                    s.inherited_ip |= gs.ip
+                    s.inherited_writes |= gs.all_writes
+        return s
 
     def func_calls(self, func: FuncInfo) -> List[Tuple[ast.Call, Target]]:
         out = []
